@@ -170,10 +170,10 @@ Section Loops.
     Qed.
 
     (* the final stage on the searched graph = the final stage on [fit_start], related by [csim] *)
-    Theorem sup_final_sim g k efin :
+    Theorem sup_final_sim g k efin gdens0 :
       sup_state g ->
       let r1 := arcs_and_pdf O fmax thr one maxd k d efin g in
-      let r2 := arcs_and_pdf O fmax thr one maxd k d efin (fit_start O labels (k_gdens g)) in
+      let r2 := arcs_and_pdf O fmax thr one maxd k d efin (fit_start O labels gdens0) in
       snd r1 = snd r2 /\
       k_nclusters (clustering_sup (nltb O) f0 fmax fb true (fst r1)) = k_nclusters (clustering_sup (nltb O) f0 fmax fb true (fst r2)) /\
       length (k_plabel (clustering_sup (nltb O) f0 fmax fb true (fst r2))) = n /\
@@ -181,7 +181,7 @@ Section Loops.
                        (clustering_sup (nltb O) f0 fmax fb true (fst r1)) (clustering_sup (nltb O) f0 fmax fb true (fst r2)).
     Proof.
       intros [Hsh Ha Hn Hc Hl]. cbv zeta. destruct Hsh as [S1 S2 S3 S4 S5 S6 S7 S8].
-      set (g0 := fit_start O labels (k_gdens g)).
+      set (g0 := fit_start O labels gdens0).
       assert (Sh0 : shaped labels g0).
       { unfold g0, fit_start. constructor; knn_cbn; rewrite ?repeat_length; reflexivity. }
       destruct (arcs_and_pdf_sim O fmax thr one maxd k d efin g g0) as (E & Hs & K1 & _ & K2 & _ & O1 & O2);
@@ -362,10 +362,10 @@ Section Loops.
   Qed.
 
   (* the final stage on the searched graph = the final stage on [fit_start], related by [csim] *)
-  Theorem unsup_final_sim labels g k d efin :
+  Theorem unsup_final_sim labels g k d efin gdens0 :
     unsup_state labels g ->
     let r1 := arcs_and_pdf O fmax thr one maxd k d efin (destroy_arcs g) in
-    let r2 := arcs_and_pdf O fmax thr one maxd k d efin (fit_start O labels (k_gdens g)) in
+    let r2 := arcs_and_pdf O fmax thr one maxd k d efin (fit_start O labels gdens0) in
     snd r1 = snd r2 /\
     k_nclusters (clustering_unsup (nltb O) f0 fmax fb k (fst r1)) = k_nclusters (clustering_unsup (nltb O) f0 fmax fb k (fst r2)) /\
     length (k_clabel (clustering_unsup (nltb O) f0 fmax fb k (fst r2))) = length labels /\
@@ -373,7 +373,7 @@ Section Loops.
                      (clustering_unsup (nltb O) f0 fmax fb k (fst r1)) (clustering_unsup (nltb O) f0 fmax fb k (fst r2)).
   Proof.
     intros [Hsh Hp]. cbv zeta.
-    set (g0 := fit_start O labels (k_gdens g)).
+    set (g0 := fit_start O labels gdens0).
     assert (Sh0 : shaped labels g0).
     { unfold g0, fit_start. constructor; knn_cbn; rewrite ?repeat_length; reflexivity. }
     destruct (destroy_arcs_keeps g) as [_ [Kd Kdp]]; [destruct Hsh; congruence|].
@@ -385,7 +385,6 @@ Section Loops.
     destruct (arcs_and_pdf_sim O fmax thr one maxd k d efin (destroy_arcs g) g0) as (E & Hs & _ & K1 & _ & K2 & O1 & O2);
       try assumption.
     { rewrite (sh_label _ _ Shd). reflexivity. }
-    { reflexivity. }
     { rewrite (sh_lradius _ _ Shd), (sh_label _ _ Shd). reflexivity. }
     { rewrite (sh_lradius _ _ Sh0), (sh_label _ _ Sh0). reflexivity. }
     set (a1 := fst (arcs_and_pdf O fmax thr one maxd k d efin (destroy_arcs g))) in *.
